@@ -1945,6 +1945,15 @@ pub fn decode_n(s: &mut Src, max_ops: usize) -> Case {
     let mut m = Model::new(fmt);
     let mut ops = Vec::new();
     while ops.len() < n && !s.exhausted() {
+        // keep the total size bounded (self-appends double a tendril; a search engine finds the
+        // sequences that do it twenty times): past 24 MiB the largest tendril is dropped
+        let total: usize = m.slots.iter().flatten().map(|v| v.len()).sum::<usize>() + m.parked.iter().map(|v| v.len()).sum::<usize>();
+        if total > (24 << 20) {
+            if let Some((i, _)) = m.slots.iter().enumerate().filter_map(|(i, v)| v.as_ref().map(|v| (i, v.len()))).max_by_key(|(_, l)| *l) {
+                emit(&mut m, &mut ops, Op::Drop(i));
+                continue;
+            }
+        }
         gen_op(s, &mut m, &mut ops);
     }
     ops.truncate(max_ops.max(n));
